@@ -1,1 +1,159 @@
-//! (to be filled)
+//! Meta family: EnumMessage / EnumProperty. Checkers for C14 C15.
+
+use crate::strfam::SGlue;
+use crate::*;
+use proptest::prelude::*;
+use serde_json::json;
+use vmodel::model;
+use vmodel::spec::PropVal;
+
+pub fn c14<E: SGlue>(ctx: &mut Ctx) {
+    let spec = ctx.spec;
+    for (i, v) in spec.variants.iter().enumerate() {
+        let val = E::make(i, &mut Draw::new(vec![3, 1, 4, 1, 5]));
+        let input = json!({"variant": i, "ident": v.ident, "disabled": v.disabled(), "docs": v.docs.iter().map(|d| d.text.clone()).collect::<Vec<_>>()});
+        let nontrivial = v.docs.len() >= 2
+            || v.docs.iter().any(|d| d.text.starts_with("  ") || d.text.starts_with('\t') || !d.text.starts_with(' '))
+            || (v.message().is_some() && v.detailed().is_some() && v.has_explicit_name())
+            || (v.disabled() && (v.message().is_some() || v.detailed().is_some() || !v.docs.is_empty()));
+        let checks: [(&str, Option<String>, Option<Option<&'static str>>); 3] = [
+            ("get_message", model::message(v), val.message()),
+            ("get_detailed_message", model::detailed(v), val.detailed()),
+            ("get_documentation", model::doc(v), val.documentation()),
+        ];
+        for (name, want, got) in checks {
+            ctx.eval();
+            ctx.class(name);
+            if nontrivial {
+                ctx.nontrivial(format!("{}/{}/{}", spec.name, i, name).as_bytes());
+            }
+            let got = got.expect("glue: EnumMessage").map(|s| s.to_string());
+            if got != want {
+                ctx.fail(&format!("message:{}", name), input.clone(), format!("{:?}", want), format!("{:?}", got));
+            }
+        }
+        ctx.eval();
+        ctx.class("get_serializations");
+        let mut want = model::spellings(spec, v);
+        let mut got: Vec<String> = val.serializations().expect("glue").iter().map(|s| s.to_string()).collect();
+        want.sort();
+        got.sort();
+        if nontrivial {
+            ctx.nontrivial(format!("{}/{}/ser", spec.name, i).as_bytes());
+        }
+        if want != got {
+            ctx.fail("message:get_serializations", input.clone(), format!("{:?}", want), format!("{:?}", got));
+        }
+        if !v.docs.is_empty() {
+            ctx.sample(json!({"enum": spec.name, "variant": v.ident, "docs": v.docs.iter().map(|d| (format!("{:?}", d.style), d.text.clone())).collect::<Vec<_>>(), "expected_documentation": model::doc(v)}));
+        }
+    }
+}
+
+fn key_variations(k: &str) -> Vec<String> {
+    let mut v = vec![
+        k.to_string(),
+        k.to_uppercase(),
+        k.to_lowercase(),
+        format!("{} ", k),
+        format!(" {}", k),
+        format!("{}x", k),
+        format!("r#{}", k),
+        format!("_{}", k),
+    ];
+    if k.len() > 1 {
+        v.push(k[..k.len() - 1].to_string());
+        v.push(k[1..].to_string());
+    }
+    v
+}
+
+pub fn c15<E: SGlue>(ctx: &mut Ctx) {
+    let spec = ctx.spec;
+    // every key declared anywhere in the enum
+    let mut keys: Vec<String> = spec.variants.iter().flat_map(|v| v.props().into_iter().map(|(k, _)| k.clone())).collect();
+    keys.sort();
+    keys.dedup();
+    let mut queries: Vec<(String, &'static str)> = Vec::new();
+    for k in &keys {
+        queries.push((k.clone(), "declared-key"));
+        for kv in key_variations(k) {
+            if !keys.contains(&kv) {
+                queries.push((kv, "key-variation"));
+            }
+        }
+    }
+    queries.push((String::new(), "empty"));
+    let eval = |i: usize, k: &str| -> Option<(String, String, String)> {
+        let v = &spec.variants[i];
+        let val = E::make(i, &mut Draw::new(vec![9, 9, 9]));
+        let s = val.get_str(k).expect("glue: EnumProperty").map(|s| s.to_string());
+        if s != model::prop_str(v, k) {
+            return Some(("props:get_str".into(), format!("{:?}", model::prop_str(v, k)), format!("{:?}", s)));
+        }
+        let n = val.get_int(k).unwrap();
+        if n != model::prop_int(v, k) {
+            return Some(("props:get_int".into(), format!("{:?}", model::prop_int(v, k)), format!("{:?}", n)));
+        }
+        let b = val.get_bool(k).unwrap();
+        if b != model::prop_bool(v, k) {
+            return Some(("props:get_bool".into(), format!("{:?}", model::prop_bool(v, k)), format!("{:?}", b)));
+        }
+        None
+    };
+    if let Some(r) = ctx.replay() {
+        let i = r["variant"].as_u64().unwrap() as usize;
+        let k = r["key"].as_str().unwrap().to_string();
+        ctx.eval();
+        if let Some((kind, e, a)) = eval(i, &k) {
+            ctx.fail(&kind, json!({"variant": i, "key": k}), e, a);
+        }
+        return;
+    }
+    for (i, v) in spec.variants.iter().enumerate() {
+        for (k, class) in &queries {
+            ctx.evals(3);
+            ctx.class(class);
+            // non-trivial: key declared in the enum but for another variant or another type
+            let declared_here: Vec<&PropVal> = v.props().into_iter().filter(|(kk, _)| kk == k).map(|(_, pv)| pv).collect();
+            let n_types = {
+                let mut t = vec![];
+                for pv in &declared_here {
+                    t.push(std::mem::discriminant(*pv));
+                }
+                t.dedup();
+                t.len()
+            };
+            if *class == "declared-key" && (declared_here.is_empty() || n_types < 3) {
+                ctx.nontrivial(format!("{}/{}/{}", spec.name, i, k).as_bytes());
+            }
+            if let Some((kind, e, a)) = eval(i, k) {
+                ctx.fail(&kind, json!({"variant": i, "ident": v.ident, "key": k, "class": class, "disabled": v.disabled()}), e, a);
+            }
+        }
+    }
+    ctx.exhaustive("every key declared anywhere in the enum x every variant x 3 getters", (keys.len() * spec.variants.len() * 3) as u64);
+    // generated keys
+    let n = spec.variants.len();
+    if n > 0 {
+        let strat = (0..n, prop_oneof![2 => "[a-zA-Z_]{0,8}".boxed(), 1 => "\\PC{0,6}".boxed()]).boxed();
+        let seed = ctx.seed;
+        let cases = ctx.param("cases", 200) as u32;
+        let shrunk = {
+            let mut f = |x: &(usize, String), counting: bool| -> Option<String> {
+                if counting {
+                    ctx.evals(3);
+                    ctx.class("generated-key");
+                }
+                eval(x.0, &x.1).map(|m| m.0)
+            };
+            prop_run(seed, cases, &strat, &mut f)
+        };
+        if let Some((i, k)) = shrunk {
+            if let Some((kind, e, a)) = eval(i, &k) {
+                ctx.fail(&kind, json!({"variant": i, "key": k, "class": "generated-key", "shrunk": true}), e, a);
+            }
+        }
+    }
+    ctx.sample(json!({"enum": spec.name, "keys": keys, "props": spec.variants.iter().map(|v| (v.ident.clone(), v.disabled(), v.props().iter().map(|(k, pv)| format!("{} = {:?}", k, pv)).collect::<Vec<_>>())).collect::<Vec<_>>()}));
+}
